@@ -58,10 +58,13 @@ tree after the `name` callback, handed on by `toR`).  Theorems quantify over ALL
   with C01/C02: for every topological order that schedules every line there is exactly ONE model and the `LogicSim` result of the
   `SimOps` model is `σ` on every line and at every capture); `bench_text_to_net`, `verilog_text_to_net` (from TEXT, any layout).
   Bench: ALL statement lists that build (`benchOKB`: gate names pairwise different, no kind `__fork__`).  Verilog: the fragment
-  `verilogOKB` — declarations, named single-bit pins reading driven signals, both `branchforks` settings, UNRESOLVED circuit (an
-  instance of kind `K` means what the simulator's kind table makes of `K`; for a library of primitives this is the function of
-  the netlist; library substitution is C10 `resolve_sem`); NOT covered: assigns, constants on pins, multi-bit connections, 1-bit
-  bus by base name, floating inputs / undriven outputs.  Hypotheses of the end-to-end theorems `orderOKB` / `forksOKB` /
+  `verilogOKB` — declarations, named single-bit pins reading constant bits (`__const<b>_<k>__` cell + fork each) or driven signals,
+  `assign` statements of any shape whose bit pairs are in dependency order (alias lines fork → fork, constant sources; both
+  pass-1.5 variants), both `branchforks` settings, UNRESOLVED circuit (an instance of kind `K` means what the simulator's kind
+  table makes of `K`; for a library of primitives this is the function of the netlist; library substitution is C10
+  `resolve_sem`); NOT covered: multi-bit pin connections, 1-bit bus by base name, floating inputs / undriven outputs, assign pairs
+  out of dependency order or onto a driven target (findings D23/D24).
+  Hypotheses of the end-to-end theorems `orderOKB` / `forksOKB` /
   `linesDrivenB` are decidable conditions on (net, order), not derived from the description.
 * **Correspondence** (harness/c11.py, differential, not proof): (1) == real `verilog.parse` / `bench.parse` on generated
   texts: node list, line list with all pin numbers, `io_nodes`, connectivity table; both raise or both build on inputs outside
@@ -83,7 +86,7 @@ tree after the `name` callback, handed on by `toR`).  Theorems quantify over ALL
 * **Oracle** (harness/c11.py): truth table of the parsed + resolved circuit under the real `LogicSim(m=2)` against the
   generator's own evaluation of the netlist it rendered; port order; Verilog vs bench.  This decides violations.
   The step from "right connectivity" to "right Boolean function" (DESIGN `parsed_sem`) is now a theorem for bench and for the
-  Verilog fragment above; it stays oracle-only for Verilog modules outside the fragment and for `resolve_tlib_cells` on them. -/
+  Verilog fragment above; it stays oracle-only for Verilog modules outside the fragment and for `resolve_tlib_cells`. -/
 namespace KV.C11
 open KV.Netlist
 
